@@ -62,3 +62,23 @@ _P["C17"] = {
                      "Spec/OvsFields.v for the header of the expected field"],
     "assumptions": ["mask arguments in the correspondence stay below 2^40 in magnitude"],
 }
+
+
+_ENC_TRUSTED = ["Model/Wire.v layout tables and Model/Build.v constructor models, hand-written from the Go sources",
+                "messages are assumed to fit in 65535 bytes (no uint16 wrap-around in Len())"]
+_P["C06"] = {
+    "explanation": "Theorems C06_* (Properties/C06.v) over Model/Wire.v + Model/Build.v; correspondence on random API recipes of every controller-side kind.",
+    "trusted_base": _ENC_TRUSTED, "assumptions": [],
+}
+
+_P["C01"] = {
+    "explanation": "Theorems C01_* (Properties/C01.v): for every API recipe of a controller-originated message the encoding starts with version 4, "
+                   "the kind's type code, a length field equal to the bytes produced and to Len(); by induction over recipes (Proofs/BuildP.v) and "
+                   "the size theorem glen_size; correspondence on random recipes incl. all commands 0..255 and bundle nesting.",
+    "trusted_base": _ENC_TRUSTED, "assumptions": ["xids are read back from the built message, not predicted"],
+}
+_P["C13"] = {
+    "explanation": "Theorems C13_* (Properties/C13.v): any history of Len()/MarshalBinary() calls on a consistent value returns constant results "
+                   "(state-passing model of the write-backs of length fields, idempotence of norm); correspondence on random op sequences of length 2..8.",
+    "trusted_base": _ENC_TRUSTED, "assumptions": ["Len() of NXActionCTNAT writes the rounded length back; the model folds that into MarshalBinary's write-back (same observable results)"],
+}
